@@ -34,7 +34,18 @@
    8. the stacked helpers return one row per sample in holder order → C09_all_rows, C09_all_rows_complete (converse), C09_variance_all_rows
    9. the averaged helpers return their exact mean → C09_avg_is_mean (+ C09_prediction_length discharging its length hypothesis
         for the methods on well-formed screens)
+   (clause 9, every holder size: `C09_avg_is_mean` is stated for the model's `predictAvg` with an arbitrary number `n` of samples --
+    no blocking -- so it is the positive statement the seeded block-of-16 change S6-C09 violates)
   harness-only for all clauses: IEEE rounding (tolerance comparison), object identity / lifetime (temporaries), memory layouts.
+  harness-only (seeded changes the functional model cannot express):
+   S5-C09 memo keyed by `id(screen)`, `id(thetas)`: object identity / lifetime (address reuse of temporaries) does not exist in a
+          model whose functions take VALUES -- caught by the temporaries stream of harness/c09.py;
+   S7-C09 in-place `sort()` of a VIEW of the result under DEBUG logging: aliasing of a result buffer plus process-wide logging
+          state -- caught by the verbose-logging slice (results bit-identical to the per-sample predictions / the default run).
+  Regression (not a clause):
+   S6-C09 mean of block means (blocks of 16): `blockMean` (Model/Predict.lean); GENERAL `C09_block_mean_dvd` (block size divides the
+          number of samples ⇒ equal to the mean), `C09_block_mean_small` (one block ⇒ equal); WITNESS `C09_block_mean_counterexample`
+          (17 samples: 19/2 ≠ 2).
 -/
 import Batchie.Lemmas.PredictHolder
 import Batchie.Lemmas.PredictMem
@@ -1021,5 +1032,104 @@ end buffers
 example : (runOps zeroRow (⟨[[[1, 2]], [[1, 1], [2, 3]], [[5, 6], [7, 8]]]⟩ : Mem (List Int))
       (predictOps2 0 1 2 [⟨0, 1, -1⟩])).map (fun p => (p.1.bufs.take 3, p.1.bufs.length, p.2))
     = some ([[[1, 2]], [[1, 1], [2, 3]], [[5, 6], [7, 8]]], 9, [3, 4, 5, 6, 7, 8]) := by decide
+
+
+/-! ## 9. Regression (not a clause): block-wise averaging, seeded change S6-C09 -/
+
+section blockmean
+variable {R : Type} [Field R]
+
+private theorem sum_map_div (l : List (List R)) (c : R) :
+    (l.map (fun blk => blk.sum / c)).sum = (l.map List.sum).sum / c := by
+  induction l with
+  | nil => simp
+  | cons a l ih => simp only [List.map_cons, List.sum_cons, ih, add_div]
+
+private theorem chunksN_spec (b : Nat) : ∀ (q : Nat) (xs : List R), xs.length = q * b →
+    (chunksN q b xs).length = q ∧ (∀ blk ∈ chunksN q b xs, blk.length = b)
+      ∧ ((chunksN q b xs).map List.sum).sum = xs.sum := by
+  intro q
+  induction q with
+  | zero =>
+    intro xs h
+    have : xs = [] := List.eq_nil_of_length_eq_zero (by simpa using h)
+    subst this
+    simp [chunksN]
+  | succ q ih =>
+    intro xs h
+    have hb : b ≤ xs.length := by rw [h]; exact Nat.le_mul_of_pos_left b (Nat.succ_pos q)
+    have hd : (xs.drop b).length = q * b := by
+      rw [List.length_drop, h, Nat.succ_mul]; omega
+    obtain ⟨i1, i2, i3⟩ := ih (xs.drop b) hd
+    refine ⟨by simp [chunksN, i1], ?_, ?_⟩
+    · intro blk hblk
+      simp only [chunksN, List.mem_cons] at hblk
+      rcases hblk with rfl | hm
+      · simp [List.length_take, hb]
+      · exact i2 blk hm
+    · simp only [chunksN, List.map_cons, List.sum_cons, i3]
+      exact List.sum_take_add_sum_drop xs b
+
+/-- `meanL` over a field is `sum / length` -/
+private theorem meanL_eq (xs : List R) : meanL xs = xs.sum / (xs.length : R) := by
+  simp [meanL, sumL_eq_sum, OfCount.ofCount]
+
+/-- GENERAL: when the block size divides the number of samples, the mean of the block means IS the
+    mean (every block has the same weight) -/
+theorem C09_block_mean_dvd [CharZero R] (b q : Nat) (hb : 0 < b) (xs : List R) (h : xs.length = q * b) :
+    blockMean b xs = meanL xs := by
+  have hq : (xs.length + b - 1) / b = q := by
+    rw [h, show q * b + b - 1 = (b - 1) + q * b by omega, Nat.add_mul_div_right _ _ hb,
+      Nat.div_eq_of_lt (by omega), Nat.zero_add]
+  obtain ⟨l1, l2, l3⟩ := chunksN_spec b q xs h
+  have hmap : (chunksN q b xs).map meanL = (chunksN q b xs).map (fun blk => blk.sum / (b : R)) := by
+    apply List.map_congr_left
+    intro blk hblk
+    rw [meanL_eq, l2 blk hblk]
+  unfold blockMean chunks
+  rw [hq, meanL_eq, hmap, sum_map_div, l3, List.length_map, l1, meanL_eq, h]
+  have hbR : (b : R) ≠ 0 := Nat.cast_ne_zero.mpr (by omega)
+  by_cases hq0 : q = 0
+  · subst hq0; simp
+  · have hqR : (q : R) ≠ 0 := Nat.cast_ne_zero.mpr hq0
+    rw [Nat.cast_mul]
+    field_simp
+
+/-- GENERAL: a holder that fits into one block is averaged exactly -/
+theorem C09_block_mean_small (b : Nat) (xs : List R) (h : xs.length ≤ b) : blockMean b xs = meanL xs := by
+  by_cases hx : xs = []
+  · subst hx
+    have h0 : ([] : List R).length + b - 1 = b - 1 := by simp
+    have hq : (b - 1) / b = 0 := by
+      rcases b with _ | b
+      · simp
+      · exact Nat.div_eq_of_lt (by omega)
+    simp [blockMean, chunks, chunksN, meanL, sumL, hq]
+  · have hpos : 0 < xs.length := List.length_pos_of_ne_nil hx
+    have hq : (xs.length + b - 1) / b = 1 := by
+      have hb : 0 < b := by omega
+      apply Nat.div_eq_of_lt_le <;> omega
+    unfold blockMean chunks
+    rw [hq]
+    simp only [chunksN, List.map_cons, List.map_nil, List.take_of_length_le h]
+    rw [meanL_eq [meanL xs]]
+    simp
+
+end blockmean
+
+/-- Regression S6-C09: with 17 samples and blocks of 16 the mean of the block means is NOT the mean
+    (sixteen samples predicting 1 and one predicting 18: mean 2, block-wise 19/2) -- whereas the
+    model's `predictAvg`, the function the driver executes, is the exact mean for EVERY holder size
+    (`C09_avg_is_mean`). -/
+theorem C09_block_mean_counterexample :
+    blockMean 16 (List.replicate 16 (1 : Rat) ++ [18]) = 19 / 2
+    ∧ meanL (List.replicate 16 (1 : Rat) ++ [18]) = 2
+    ∧ blockMean 16 (List.replicate 16 (1 : Rat) ++ [18]) ≠ meanL (List.replicate 16 (1 : Rat) ++ [18]) := by
+  refine ⟨by decide +kernel, by decide +kernel, by decide +kernel⟩
+
+/-- the hypotheses of the two general theorems are satisfiable with content: 32 = 2 · 16 samples, and 5 ≤ 16 -/
+example : blockMean 16 ((List.range 32).map (fun i => (i : Rat))) = meanL ((List.range 32).map (fun i => (i : Rat)))
+    ∧ blockMean 16 ([3, 1, 4, 1, 5] : List Rat) = 14 / 5 := by
+  refine ⟨by decide +kernel, by decide +kernel⟩
 
 end Batchie.Props.C09
